@@ -30,10 +30,15 @@ func CLIBin() string {
 // RunCLI runs `origami <file>` in its own process group with a memory ceiling
 // (ulimit -v) and a timeout; the group is SIGKILLed on timeout.
 func RunCLI(dir, file string, timeout time.Duration, args ...string) CLIResult {
+	return RunCmd(dir, timeout, append([]string{CLIBin(), file}, args...)...)
+}
+
+// RunCmd runs an arbitrary command the same way (own process group, ulimit -v, timeout, SIGKILL of the group).
+func RunCmd(dir string, timeout time.Duration, argv0 ...string) CLIResult {
 	ctx, cancel := context.WithTimeout(context.Background(), timeout)
 	defer cancel()
 	sh := "ulimit -v 8000000; exec \"$0\" \"$@\""
-	argv := append([]string{"-c", sh, CLIBin(), file}, args...)
+	argv := append([]string{"-c", sh}, argv0...)
 	cmd := exec.Command("/bin/sh", argv...)
 	cmd.Dir = dir
 	cmd.SysProcAttr = &syscall.SysProcAttr{Setpgid: true}
